@@ -2,8 +2,10 @@ package props
 
 import (
 	"context"
+	"encoding/binary"
 	"errors"
 	"fmt"
+	"github.com/go-netty/go-netty/codec/frame"
 	"io"
 	"net"
 	"strings"
@@ -321,6 +323,25 @@ func runC07(c *core.Ctx) {
 						}
 						c07Fault(c, id, mode, op, k, ek, swallow)
 					}
+				}
+			}
+		}
+	}
+	// failing transport reads that travel through a shipped frame decoder (fault at the 1st..6th one-byte read: inside a
+	// header, a body, a delimiter, at a frame boundary)
+	for ci := 1; ci < len(c07ReadCodecs); ci++ {
+		for k := 1; k <= 6; k++ {
+			for ek := 0; ek < 3; ek++ {
+				for _, swallow := range []bool{false, true} {
+					fi++
+					if !c.Mine(fi) {
+						continue
+					}
+					id := fmt.Sprintf("fault/read-through-%s/k%d/e%d/sw%v", c07ReadCodecs[ci].name, k, ek, swallow)
+					if !c.Case(id) {
+						continue
+					}
+					c07FaultVia(c, id, mon.Sync, mon.OpRead, k, ek, swallow, ci)
 				}
 			}
 		}
@@ -736,7 +757,36 @@ func c07Idle(c *core.Ctx, id string, valKind int, shape string, readIdle bool) {
 }
 
 // c07Fault: transport failures.
+// c07Drain reads every delivered frame to its end and raises a read error the way the shipped codecs do.
+type c07Drain struct{}
+
+func (c07Drain) HandleRead(ctx netty.InboundContext, message netty.Message) {
+	if r, ok := message.(io.Reader); ok {
+		if _, err := io.Copy(io.Discard, r); err != nil {
+			panic(err)
+		}
+	}
+}
+
+// c07ReadCodecs: the shipped frame decoders a failing transport read may travel through (frame = one byte 'x').
+var c07ReadCodecs = []struct {
+	name  string
+	mk    func() netty.Handler
+	frame []byte
+}{
+	{"none", nil, []byte{'x'}},
+	{"length-field", func() netty.Handler { return frame.LengthFieldCodec(binary.BigEndian, 64, 0, 2, 0, 2) }, []byte{0, 1, 'x'}},
+	{"length-field-strip-into-body", func() netty.Handler { return frame.LengthFieldCodec(binary.BigEndian, 64, 0, 2, 0, 3) }, []byte{0, 2, 'y', 'x'}},
+	{"varint", func() netty.Handler { return frame.VarintLengthFieldCodec(64) }, []byte{1, 'x'}},
+	{"delimiter", func() netty.Handler { return frame.DelimiterCodec(64, "\n", true) }, []byte{'x', '\n'}},
+	{"fixed", func() netty.Handler { return frame.FixedLengthCodec(2) }, []byte{'x', 'x'}},
+}
+
 func c07Fault(c *core.Ctx, id string, mode mon.Mode, op string, k, ek int, swallow bool) {
+	c07FaultVia(c, id, mode, op, k, ek, swallow, 0)
+}
+
+func c07FaultVia(c *core.Ctx, id string, mode mon.Mode, op string, k, ek int, swallow bool, codec int) {
 	var ferr error
 	switch ek {
 	case 0:
@@ -748,11 +798,18 @@ func c07Fault(c *core.Ctx, id string, mode mon.Mode, op string, k, ek int, swall
 	}
 	exc := &excProbe{name: "only", swallow: swallow}
 	in := &inactProbe{}
-	park := &mon.ParkReader{}
-	rig := mon.NewRig(mon.RigOpts{Mode: mode, Queue: 4, NoPark: true, Handlers: []netty.Handler{park, exc, in}})
+	hs := []netty.Handler{&mon.ParkReader{}, exc, in}
+	cd := c07ReadCodecs[codec]
+	if cd.mk != nil {
+		hs = []netty.Handler{cd.mk(), c07Drain{}, exc, in}
+		c.Count("read_fault_cells_through_a_frame_decoder", 1)
+	}
+	tr := mon.NewRecTransport()
+	tr.SetMaxReadChunk(1) // one byte per transport read: the k-th read falls into a header, a body or a delimiter
+	rig := mon.NewRig(mon.RigOpts{Mode: mode, Queue: 4, NoPark: true, Handlers: hs, Tr: tr})
 	defer rig.Dispose()
 	c.Count("fault_cells", 1)
-	c.Sig("fault", mode, op, k, ek, swallow)
+	c.Sig("fault", mode, op, k, ek, swallow, cd.name)
 	viol := func(key, what string) {
 		ops, _ := rig.T.Snapshot()
 		c.Violation("C07:"+key, id, fmt.Sprintf("%s [fault %s#%d err=%v mode=%s swallow=%v]", what, op, k, ferr, mode, swallow), map[string]interface{}{"ops": tailOpString(ops)})
@@ -770,7 +827,7 @@ func c07Fault(c *core.Ctx, id string, mode mon.Mode, op string, k, ek int, swall
 	if op == mon.OpRead {
 		// reads 1..k: the k-th fails
 		for i := 0; i < 4; i++ {
-			rig.T.FeedBytes([]byte{'x'})
+			rig.T.FeedBytes(cd.frame)
 		}
 	} else {
 		// drive enough writes through Channel.Write for the k-th transport call to happen
